@@ -37,7 +37,8 @@ def handle (st : St) : List Str → St × Str
     let h := st.heap
     let i := natOf a
     let s := get h i
-    if op = str "insert" then let h' := put h i (insertAll s (parseKeys c)); ({ heap := h' }, out ['-'] h')
+    if op = str "regen" then (st, str "ok")   -- input program and checker wiring: for the real set-gen only
+    else if op = str "insert" then let h' := put h i (insertAll s (parseKeys c)); ({ heap := h' }, out ['-'] h')
     else if op = str "delete" then let h' := put h i (deleteAll s (parseKeys c)); ({ heap := h' }, out ['-'] h')
     else if op = str "has" then (st, out (b (has s (parseKey c))) h)
     else if op = str "hasall" then (st, out (b (hasAll s (parseKeys c))) h)
